@@ -552,16 +552,19 @@ def kwChild (n : Node) (c : Ctx) : Ref → Option NC
   | .member _ => none
 
 /-- The node and coordinates at an address `kwSearch` returned for the node `n` at `c`: the node
-itself, one of its children, or an ancestor (found at its address below the document root `rt`). -/
+itself, one of its children, or an ancestor (found at its address below the document root `rt`);
+any other address is refused. -/
 def kwResolve (rt n : Node) (c : Ctx) (a : Addr) : Option NC :=
-  if a.length = c.addr.length then some (n, c)
-  else if a.length = c.addr.length + 1 then
-    match a.getLast? with
-    | some r => kwChild n c r
-    | none => none
+  if a = c.addr then some (n, c)
+  else if a.length < c.addr.length then
+    if a = c.addr.take a.length then
+      match rt.get? a with
+      | some m => some (m, ctxUp c (c.addr.length - a.length))
+      | none => none
+    else none
   else
-    match rt.get? a with
-    | some m => some (m, ctxUp c (c.addr.length - a.length))
+    match a.getLast? with
+    | some r => if a = c.addr ++ [r] then kwChild n c r else none
     | none => none
 
 def kwResolveAll (rt n : Node) (c : Ctx) : List Addr → Option (List NC)
